@@ -149,6 +149,14 @@ def main(arguments, sqlite_file_path: str, export_sub_paths=False):
             "specified (--file-prefix)."
         )
 
+    if arguments.file_prefix and (
+        sep in arguments.file_prefix
+        or (path.altsep and path.altsep in arguments.file_prefix)
+    ):
+        raise SqliteError(
+            "The file prefix (--file-prefix) must not contain a path separator."
+        )
+
     # Setup the export type
     export_types = [EXPORT_TYPES.TEXT]
     if arguments.export and len(export_types) > 0:
